@@ -23,7 +23,7 @@
 From Coq Require Import List Bool NArith.
 From Coq Require Import Permutation.
 From SF Require Import Graph.Model Graph.Util Graph.Proofs ProvGraph.Model ProvGraph.Proofs ProvGraph.Proofs2
-                       ProvGraph.Proofs3.
+                       ProvGraph.Proofs3 ProvGraph.Proofs4.
 Import ListNotations.
 
 (* every token of the recovery graph is a provenance ancestor of an input of the failed job, reached through
@@ -100,10 +100,13 @@ Theorem C18_selected_step_ports : forall order, (forall l, Permutation (order l)
     (exists o nm t, In o (s_out st) /\ ~ In nm outs /\ is_node dag t /\ port_of_token d t nm).
 Proof. exact selected_step_ports. Qed.
 
-(* ... and a job step (a step with a private job port jp that is not a port of the failed job's inputs) is
-   selected only if it PRODUCED A LOST TOKEN OF THE RECOVERY GRAPH: a token t of the graph that is unavailable
-   and sits on one of the step's output ports.  Jobs whose outputs stayed available are never selected. *)
-Theorem C18_job_step_selected_only_if_output_lost : forall order, (forall l, Permutation (order l) l) ->
+(* ... and a job STEP (a step with a private job port jp that is not a port of the failed job's inputs) is
+   selected only if a LOST TOKEN OF THE RECOVERY GRAPH sits on one of the step's output ports.
+   partial: this is at STEP granularity.  A scattered step is selected as soon as ONE of its elements' outputs is
+   lost; which TAGS of the step run again in the recovery workflow is decided by _inject_tokens / Step.restore and
+   the dataflow of the recovery workflow, which are not modelled as a dataflow (see C18_job_rerun_only_if_needed_partial
+   for the per-job statement at the level of the recovery graph, and the engine scenarios for the rest). *)
+Theorem C18_step_selected_only_if_output_lost_partial : forall order, (forall l, Permutation (order l) l) ->
   forall d inputs dag info m,
   build_graph d inputs = BOk dag info -> create_graph_mapper order dag info = Some (inl m) ->
   forall steps ports outs s st i jp out_names,
@@ -114,6 +117,47 @@ Theorem C18_job_step_selected_only_if_output_lost : forall order, (forall l, Per
   (forall x, In x inputs -> ~ port_of_token d x jp) ->
   exists t, is_node dag t /\ lostT d t /\ exists nm, port_of_token d t nm /\ In nm out_names.
 Proof. exact selected_job_step_lost_output. Qed.
+
+(* PER JOB (step, tag).  [J] is a job name; [inter x]: x was made for J on the way to its execution (its transferred
+   inputs); [out t]: t is an output of J; H1/H2 say that the provenance of J has this shape (whatever is made from a
+   job token of J is such an intermediate token or an output of J; whatever is made from an intermediate token is an
+   output of J).  Then a job token of J is in the recovery graph only if J is the failed job (its job token or one
+   of its transferred inputs is an input of the failed job) or ONE OF J'S OWN OUTPUTS IS LOST and in the graph.
+   partial: "J is re-executed in the recovery workflow => a job token of J is in the recovery graph" is not proved
+   (it is the dataflow of the recovery workflow: _inject_tokens puts the available mapper tokens, ScatterStep.restore
+   filters on the tags of the unavailable ones); every engine scenario checks exactly that link on the real run
+   (CEngine in ProvGraph/Corr.v: each re-executed job has a job token in the model's graph). *)
+Theorem C18_job_rerun_only_if_needed_partial : forall d inputs dag info,
+  build_graph d inputs = BOk dag info ->
+  forall (J : N) (inter out : N -> Prop),
+  (forall j t, job_token_of d J j -> dep d t j -> inter t \/ out t) ->
+  (forall x t, inter x -> dep d t x -> out t) ->
+  forall j, is_node dag j -> job_token_of d J j ->
+  (In j inputs \/ exists x, inter x /\ In x inputs) \/
+  (exists t, out t /\ is_node dag t /\ lostT d t).
+Proof. exact job_token_in_graph_only_if_needed. Qed.
+
+(* what goes into the ports of the recovery workflow: the mapper built by create_graph_mapper lists only tokens of
+   the recovery graph, each under its own port and with the availability build_graph recorded; so the tokens
+   _inject_tokens puts into a port are AVAILABLE graph tokens of that port, and the tokens handed to Step.restore
+   (whose tags are ScatterStep's valid_tags) are UNAVAILABLE graph tokens of that port. *)
+Theorem C18_injected_tokens_are_available : forall order, (forall l, Permutation (order l) l) ->
+  forall dag info m, WF dag -> create_graph_mapper order dag info = Some (inl m) ->
+  forall port t, In t (injected_tokens m port) ->
+  exists pi, is_node dag t /\ aget info t = Some pi /\ i_port pi = port /\ i_avail pi = true.
+Proof.
+  intros order H dag info m W C port t. apply (injected_are_available dag info m port t).
+  exact (TI_create_graph_mapper order H dag info W m C).
+Qed.
+
+Theorem C18_restored_tokens_are_unavailable : forall order, (forall l, Permutation (order l) l) ->
+  forall dag info m, WF dag -> create_graph_mapper order dag info = Some (inl m) ->
+  forall port t, In t (restore_tokens m port) ->
+  exists pi, is_node dag t /\ aget info t = Some pi /\ i_port pi = port /\ i_avail pi = false.
+Proof.
+  intros order H dag info m W C port t. apply (restored_are_unavailable dag info m port t).
+  exact (TI_create_graph_mapper order H dag info W m C).
+Qed.
 
 (* GraphMapper keeps its port <-> token maps consistent under add / move_token_to_root / replace_token /
    remove_port, for every set-iteration order (tokens are presented with their own port: op_respects) ... *)
@@ -178,7 +222,7 @@ Example C18_ex_steps :
   end.
 Proof. vm_compute. reflexivity. Qed.
 
-(* the hypotheses of C18_job_step_selected_only_if_output_lost are met: step 11 (job 7) has the private job port 2,
+(* the hypotheses of C18_step_selected_only_if_output_lost_partial are met: step 11 (job 7) has the private job port 2,
    everything made from a token of port 2 sits on port 3, and no input of the failed job sits on port 2 *)
 Example C18_ex_private : private_port ex_db 2%N [3%N].
 Proof.
@@ -196,6 +240,19 @@ Proof.
   destruct Hx as [<- |[<- |[<- |[]]]]; vm_compute in A; injection A as <-; discriminate B.
 Qed.
 
+(* job 7 of ex_db: no intermediate tokens, its output is token 3; its job token 2 is in the graph and 3 is lost *)
+Example C18_ex_job_shape :
+  (forall j t, job_token_of ex_db 7%N j -> dep ex_db t j -> False \/ t = 3%N) /\ job_token_of ex_db 7%N 2%N.
+Proof.
+  split; [|eexists; split; reflexivity].
+  intros j t [rj [Hj Jj]] [rt [Ht Dt]]. right.
+  pose proof (find_tok_id ex_db _ _ Hj) as Ej. pose proof (find_tok_id ex_db _ _ Ht) as Et.
+  apply find_tok_In in Hj. apply find_tok_In in Ht. simpl in Hj, Ht.
+  destruct Hj as [<- |[<- |[<- |[<- |[<- |[<- |[]]]]]]]; simpl in Jj, Ej; try discriminate Jj; subst j;
+    destruct Ht as [<- |[<- |[<- |[<- |[<- |[<- |[]]]]]]]; simpl in Dt, Et; subst t;
+    try reflexivity; intuition discriminate.
+Qed.
+
 Print Assumptions C18_ancestors.
 Print Assumptions C18_stops_at_available.
 Print Assumptions C18_only_producers_of_lost.
@@ -204,7 +261,10 @@ Print Assumptions C18_graph_consistent.
 Print Assumptions C18_get_step_ids_sound.
 Print Assumptions C18_mapper_ports_are_graph_ports.
 Print Assumptions C18_selected_step_ports.
-Print Assumptions C18_job_step_selected_only_if_output_lost.
+Print Assumptions C18_step_selected_only_if_output_lost_partial.
+Print Assumptions C18_job_rerun_only_if_needed_partial.
+Print Assumptions C18_injected_tokens_are_available.
+Print Assumptions C18_restored_tokens_are_unavailable.
 Print Assumptions C18_mapper_consistent.
 Print Assumptions C18_mapper_consistent_initially.
 Print Assumptions C18_created_mapper_consistent.
